@@ -32,7 +32,7 @@ func c06HashFlag(w *c06World) {
 	getCmpType := LookupFunc(w.ty, "GetCompareType")
 	hashFn := LookupFunc(w.hs, "HashOfSimple")
 	type kind struct {
-		name             string
+		name              string
 		nullType, nullVal bool
 	}
 	kinds := []kind{{"value", false, false}, {"NULL-typed", true, true}, {"NULL-valued", false, true}}
